@@ -1,5 +1,107 @@
 import FcpptModel.Prelude.Proto
-/-! Driver for C03 — placeholder until the property's model is built. -/
+import FcpptModel.Model.C03.Shapes
+/-!
+Driver for C03.  Operations (one per line); an argument token `~` stands for the empty string:
+
+* `run <shape> <tok>*`   — construct shape number `<shape>` of `Shapes.lean`, parse the argument vector.
+     result  `exc:duplicate-names` | `exc:options`                        (constructor threw)
+             `diverge`                                                     (fuel exhausted)
+             `P=<ok REC|error> R=<ok REC rest=TOKS|missing|other>`         (`parse` / the parser's own `parse` member)
+             `H=<help|ok REC|error> R=…`                                   (shapes run through `parse_help`)
+* `hang <shape> <tok>*`  — the same (the harness runs it under a short watchdog)
+* `ex <shape> <n> <k> <alphabet: k tokens> <prefix tokens>*` — FNV digest over the `run` lines of all argument
+     vectors of length `n` over the alphabet that start with the prefix (last position varies fastest)
+-/
 namespace Fcppt.C03.Drv
-def main : IO Unit := Fcppt.Proto.run (fun _ => "not-built")
+open Fcppt.Proto
+
+def decodeTok (s : String) : String := if s = "~" then "" else s
+def encodeTok (s : String) : String := if s = "" then "~" else s
+
+/-- insertion sort of record fields by label -/
+def insertField (x : String × String) : List (String × String) → List (String × String)
+  | [] => [x]
+  | y :: r => if x.1 ≤ y.1 then x :: y :: r else y :: insertField x r
+
+def sortFields (l : List (String × String)) : List (String × String) := l.foldr insertField []
+
+partial def showVal : Val → String
+  | .int i => toString i
+  | .str s => encodeTok s
+  | .bool b => if b then "true" else "false"
+  | .enm i => s!"e{i}"
+  | .unit => "()"
+  | .none => "none"
+  | .some v => "some(" ++ showVal v ++ ")"
+  | .list l => "[" ++ ";".intercalate (l.map showVal) ++ "]"
+  | .left v => "L" ++ showVal v
+  | .right v => "R" ++ showVal v
+  | .recd fs => "{" ++ ",".intercalate ((sortFields (fs.map fun (l, v) => (l, showVal v))).map fun (l, s) => l ++ "=" ++ s) ++ "}"
+
+def showRec (r : Rec) : String := showVal (.recd r)
+
+def showToks (l : List Arg) : String := if l.isEmpty then "-" else ",".intercalate (l.map fun a => encodeTok a.2)
+
+def excName : ExcKind → String
+  | .duplicateNames => "exc:duplicate-names"
+  | .optionsException => "exc:options"
+  | _ => "exc:other"
+
+def rawPart (f : Nat) (p : OP) (args : List String) : String :=
+  match parse f p (index args) p.optionNames with
+  | .ok (st, r, _) => s!"ok {showRec r} rest={showToks st}"
+  | .error (.missing _) => "missing"
+  | .error .other => "other"
+  | .error .diverge => "diverge"
+
+def runLine (s : Shape) (args : List String) : String :=
+  match construct s.op with
+  | .error k => excName k
+  | .ok () =>
+    match s.help with
+    | none =>
+      let f := fuelFor s.op args.length
+      match parseTop f s.op args with
+      | .error .diverge => "diverge"
+      | .error .error => s!"P=error R={rawPart f s.op args}"
+      | .ok (r, _) => s!"P=ok {showRec r} R={rawPart f s.op args}"
+    | some (hsh, hlg) =>
+      let f := fuelFor (helpSum hsh hlg s.op) args.length
+      match parseHelp f hsh hlg s.op args with
+      | .error .diverge => "diverge"
+      | .error .error => s!"H=error R={rawPart f s.op args}"
+      | .ok .help => s!"H=help R={rawPart f s.op args}"
+      | .ok (.result r _) => s!"H=ok {showRec r} R={rawPart f s.op args}"
+
+/-- all vectors of length `n` over `alpha` (last position fastest), each appended to `pre` -/
+def digestAll (s : Shape) (alpha : List String) : Nat → List String → UInt64 → UInt64
+  | 0, pre, h => fnv h (runLine s pre.reverse)
+  | n + 1, pre, h => alpha.foldl (fun h t => digestAll s alpha n (t :: pre) h) h
+
+def getShape (sid : String) : Option Shape :=
+  match sid.toNat? with
+  | some i => shapes[i]?
+  | none => none
+
+def handle (toks : List String) : String :=
+  match toks with
+  | "run" :: sid :: args | "hang" :: sid :: args =>
+    match getShape sid with
+    | some s => runLine s (args.map decodeTok)
+    | none => "bad-op"
+  | "ex" :: sid :: n :: k :: rest =>
+    match getShape sid, n.toNat?, k.toNat? with
+    | some s, some n, some k =>
+      if k = 0 ∨ rest.length < k then "bad-op" else
+      let alpha := (rest.take k).map decodeTok
+      let pre := (rest.drop k).map decodeTok
+      if pre.length > n then "bad-op"
+      else match construct s.op with
+      | .error e => excName e      -- the constructor throws before anything is enumerated
+      | .ok () => "D " ++ hex64 (digestAll s alpha (n - pre.length) pre.reverse fnvInit)
+    | _, _, _ => "bad-op"
+  | _ => "bad-op"
+
+def main : IO Unit := Proto.run handle
+
 end Fcppt.C03.Drv
